@@ -7,7 +7,7 @@ from enum import Enum, IntEnum
 
 from asyncfix import FMsg, FTag
 from asyncfix.codec import Codec
-from asyncfix.errors import FIXConnectionError
+from asyncfix.errors import EncodingError, FIXConnectionError
 from asyncfix.journaler import Journaler
 from asyncfix.message import FIXMessage, MessageDirection
 from asyncfix.protocol import FIXProtocolBase
@@ -259,7 +259,13 @@ class AsyncFIXConnection:
                 " order to get valid response handling"
             )
 
-        encoded_msg = self._codec.encode(msg, self._session).encode("utf-8")
+        next_num_out = self._session.next_num_out
+        try:
+            encoded_msg = self._codec.encode(msg, self._session).encode("latin-1")
+        except UnicodeEncodeError as exc:
+            # FIX is a single-byte protocol: refuse, and give the MsgSeqNum back
+            self._session.next_num_out = next_num_out
+            raise EncodingError(f"message is not encodable as single bytes: {exc}")
 
         msg_raw = encoded_msg.replace(b"\x01", b"|")
         self.log.debug(
